@@ -77,7 +77,7 @@ Definition w_vcf_read_record (d : list N) : TextBase.res nat * list N * list nat
              a field that spans several windows is collected and validated once; the bytes are
              consumed before the error is reported.
    It is the only line to change when 05b is committed. *)
-Definition vcf_utf8_repaired : bool := false.
+Definition vcf_utf8_repaired : bool := true.
 
 (* the closed form with the UTF-8 validation of the whole field / the whole rest of the line:
    an invalid field is an InvalidData error AFTER the field (and its delimiter) has been consumed.
